@@ -354,6 +354,9 @@ def r_validator_inputs(r, prog):
     r.floor(10)
 
 
+import decisions
+
+
 def run(ctx):
     prog = ctx.prog
     ctx.run_rule('C04.1a', 'T5', 'every validator is wired to every element kind it applies to', r_wiring, prog)
@@ -363,6 +366,7 @@ def run(ctx):
     ctx.run_rule('C04.3', 'T5', 'every rule has a producer', r_every_rule_has_a_producer, prog)
     ctx.run_rule('C04.4', 'T5', 'attribute pipeline: parsed set = AttributeKind impls; unknown directives reported', r_attribute_pipeline, prog)
     ctx.run_rule('C04.5', 'T6', 'numeric tables: integral set, bounds, tag range, implicit enum bounds', r_numeric_tables, prog)
+    ctx.run_rule('C04.1d', 'T2', 'every file of the compilation is handed to the validators', decisions.r_every_file_validated, prog)
     ctx.run_rule('C04.7', 'T13', 'what the validating visitor hands to each validator (input ledger)', r_validator_inputs, prog)
     ctx.run_rule('C04.6a', 'T13', 'rule-precondition ledger of the validators and attribute types', r_rule_preconditions, prog)
     ctx.run_rule('C04.6b', 'T13', 'rule-precondition ledger of the parser-level rules (module rule, tags, literals, return tuples)', r_parser_rule_preconditions, prog)
